@@ -567,6 +567,9 @@ def createFamilyHeld : Bool :=
 /-- the creators' model as the source stands now -/
 def cfCfg : C01CF.Cfg := ⟨createFamilyHeld, Generated.C01.createFamilyRechecksUnderLock⟩
 
+theorem cfCfg_is_driver_cfg : cfCfg = ⟨Generated.C01.createFamilyLockHeldToReturn && Generated.C01.createFamilyPublishesAfterLock == 1,
+    Generated.C01.createFamilyRechecksUnderLock⟩ := rfl
+
 theorem tie_createFamily_lock_region :
     createFamilyHeld = true ∧
     only ["fileutil.Exist", "familySeq.Inc", "s.dumpStoreInfo", "newFamilyFunc"] Generated.C01.createFamilyUnderLockCalls
